@@ -88,6 +88,10 @@ is_ascii_domain (const char *start, const char *end)
         }
     } /* for(...) */
 
+    /* the last label is empty, e.g. "a.." (the root dot was removed above) */
+    if (label_length == 0)
+        return inverse(EEAV_DOMAIN_MISPLACED_DELIMITER);
+
     if (non_numeric == 0) {
         /* numeric hostname */
 #ifndef SLOPPY_VALID_HOSTNAME
